@@ -7,6 +7,7 @@ CONSTANTS
   MaxDeviate = 0
   KLMs = {123}
   FactorKindsC14 = {"Factor", "Rank1", "Linear", "Const", "Measure", "PDF:S"}
+  Warm = {"none"}
 INIT Init
 NEXT Next
 CHECK_DEADLOCK FALSE
